@@ -2,7 +2,7 @@
    case <id> <nio> <readd> <strict> <wc>
      ACC | SDESTROY | CCONN | CDESTROY | SWAP l | RUN l full | END l | EV c DATA|EOF|RERR|HUP|ERR|OUT drained
      DFIRE c | LSHUT c | LFC c | LFCD c | LSEND c full | LSR c | LSP c | UGRAB c | UDROP c
-     XB u c api | XS u | XE u pin          api ::= shutdown | force | forcedelay | send | startread | stopread
+     XB u c api | XS u | XE u pin          api ::= shutdown | force | forcedelay | send | startread | stopread | dtor (~TcpClient, c = its connection)
    end *)
 let st_code = function Disconnected -> 0 | Connecting -> 1 | Connected -> 2 | Disconnecting -> 3
 let b2i b = if b then 1 else 0
@@ -30,7 +30,7 @@ let show status obs (s : sys) =
   flush stdout
 let parse_api = function
   | "shutdown" -> AShutdown | "force" -> AForceClose | "forcedelay" -> AForceCloseDelay
-  | "send" -> ASend | "startread" -> AStartRead | "stopread" -> AStopRead
+  | "send" -> ASend | "startread" -> AStartRead | "stopread" -> AStopRead | "dtor" -> ADtor
   | a -> failwith ("bad api " ^ a)
 let () =
   let s = ref (init_sys O false) in
